@@ -16,7 +16,9 @@
  2b. native detours: each other implementation builds the content once more through ITS OWN mutating API; live message.py objects go through the
     aliasing histories of WireHeap.tla (size and bytes after every call); the Python transceiver also ORIGINATES frames of a status Message it
     keeps, changes through a sub-Message reference and resends; frame body sizes sweep 2030..2060, the mini gateway's 2 x (body + 8) growth and
-    64 KiB shrink, with every gateway as sender and as receiver.
+    64 KiB shrink, with every gateway as sender and as receiver; Messages of 2 / 8 (/ 12) MB, which do not fit one send(), are echoed by the Python
+    transceiver to a peer that reads in small pieces with pauses.  Non-flattenable fields (C++ AddPointer / AddTag, mini MMPutPointerField) are part
+    of the vectors, next to ordinary fields and inside sub-Messages, through put / rename / move / copy / MMCloneMessage: they must leave no trace.
  3. frames: batches of Messages through MessageIOGateway / MGDoOutput / UGDoOutput into in-memory pipes with random slicing, each stream
     read back by the others; TLC validates stream = FrameStream(bytes).  Python transceiver thread: echo session over loopback TCP.
 """
@@ -168,7 +170,7 @@ def run(v, tier, seed):
                 first = p.stdout.readline().strip()
                 if not first.startswith("PORT "): return None, {"skipped": first or "the Python side did not start"}, None, None
                 tr = W("echo%d.trace.ndjson" % k); rep = W("echo%d.rep.ndjson" % k)
-                rows, summ = wirelib.run_wire(v, ["pyecho", first.split()[1], seed, n, tr, rep, tol], "echo through the Python transceiver thread", 400, "pyecho")
+                rows, summ = wirelib.run_wire(v, ["pyecho", first.split()[1], seed, n, tr, rep, tol, 2 if quick else 3], "echo through the Python transceiver thread", 900, "pyecho")
                 return rows, summ, tr, rep
             finally:
                 try: p.stdin.close(); p.wait(timeout=20)
@@ -184,10 +186,25 @@ def run(v, tier, seed):
         if summ.get("aborted"): return
         with lock:
             tot["comparisons"] += summ["sent"]
-            notes["python_transceiver"] = {"sent": summ["sent"], "echoed_identically": summ["echoed_identically"], "bytes": summ["bytes"], "resent_status_frames_identical": summ["resent_status_frames_identical"]}
+            notes["python_transceiver"] = {"sent": summ["sent"], "echoed_identically": summ["echoed_identically"], "bytes": summ["bytes"], "resent_status_frames_identical": summ["resent_status_frames_identical"], "frames_of_several_MB_identical": "%d of %d" % (summ["big_frames_identical"], summ["big_frames_sent"])}
         if not v.violations:
             validate(tr, "echo", "echo through the Python transceiver thread")
             os.remove(tr); os.remove(rep)
+        # the same session with the roles at the socket level exchanged: the Python transceiver CONNECTS to the C++ side (its connecting socket is non-blocking, so the
+        # first send() of a frame of several MB is partial)
+        if not v.violations:
+            tr2 = W("echoc.trace.ndjson"); rep2 = W("echoc.rep.ndjson")
+            rows, summ = wirelib.run_wire(v, ["pyecho", "listen", seed + 1, max(10, n // 3), tr2, rep2, tol, 2 if quick else 3, "python3", helpers["wire_py"]], "echo session, Python transceiver connecting", 900, "pyechoc")
+            if summ.get("skipped"): notes["python_transceiver"]["connecting"] = {"skipped": summ["skipped"]}
+            else:
+                wirelib.report_rows(v, rows, "echo through message_transceiver_thread.py (connecting side)", "pyechoc")
+                if not summ.get("aborted"):
+                    with lock:
+                        tot["comparisons"] += summ["sent"]
+                        notes["python_transceiver"]["connecting"] = {"sent": summ["sent"], "echoed_identically": summ["echoed_identically"], "frames_of_several_MB_identical": "%d of %d" % (summ["big_frames_identical"], summ["big_frames_sent"])}
+                if not v.violations:
+                    validate(tr2, "echoc", "echo session, Python transceiver connecting")
+                    os.remove(tr2); os.remove(rep2)
 
     # the binding must notice a single disagreement / a single wrong byte in a recorded line
     def selftest():
@@ -209,7 +226,7 @@ def run(v, tier, seed):
 
     try:
         with cf.ThreadPoolExecutor(max_workers=12) as ex:
-            fs = [ex.submit(vectors, ["all", "zero", "deep"] if quick else ["all", "zero", "deep", "triples"])]
+            fs = [ex.submit(vectors, ["all", "zero", "deep", "nonflat"] if quick else ["all", "zero", "deep", "nonflat", "triples"])]
             scale = float(os.environ.get("VERIF_SCALE", "1"))           # < 1: a reduced thorough run
             nsh, per = (4, 700) if quick else (8, max(200, int(40000 * scale)))
             fs += [ex.submit(random_vectors, k, per) for k in range(nsh)]
